@@ -348,8 +348,14 @@ func c16Renegotiate(c *ev.Ctx) {
 				s.P.Send(wire.Tread, 900, u(1), u(uint64(i)), u(3000))
 				s.P.Send(wire.Tversion, 901, u(uint64(ms)), v7)
 				s.P.Send(wire.Tread, 902, u(2), u(uint64(i)), u(2000))
+				tags := []uint16{900, 901, 902}
+				if i%3 == 0 {
+					// and a second Tversion: it names no fid either
+					s.P.Send(wire.Tversion, 903, u(uint64(ms)), v7)
+					tags = append(tags, 903)
+				}
 				dead := false
-				for _, tag := range []uint16{900, 901, 902} {
+				for _, tag := range tags {
 					r, got, o, d := s.P.WaitTag(tag, from)
 					if !got {
 						hang(c, o, d, "C16:renegotiate:request-unanswered", tag)
